@@ -6,6 +6,8 @@
         only the 12 edges of that cell, nothing if the guard fails                                     (c0910)
   _dipole_vector wire branch: every consecutive electrode pair contributes                              (cx)
   get_source_field: vector * strength * (-s mu0) (no factor when frequency is None); dispatch on type  (cx)
+  get_source_field from coordinates (tuple / list / ndarray + strength, length, electric): one instance of the documented class with
+        the given coordinates, strength and -- five-element format -- length, by the class's current signature  (cx)
   conversions dipole <-> point, square loop: bounded concrete only
 """
 import os
@@ -22,7 +24,10 @@ VEC = z3.Real('vector_element')
 
 def replay(d):
     from . import c0910_concrete
-    return ob.guarded(c0910_concrete.check_sources, 'quick', 0)
+    r = ob.guarded(c0910_concrete.check_sources, 'quick', 0)
+    if not r['reproduced']:
+        r = ob.guarded(c0910_concrete.check_sources_from_coordinates, 0)
+    return r
 
 
 def vec_field(tag):
@@ -94,6 +99,181 @@ def task_get_source_field():
     return col.pack()
 
 
+# ------------------------------------------------------------------ get_source_field, source given by its coordinates
+class Coords(cx.Ext, cx.NDArr):
+    """an ndarray of source coordinates of which only the number of elements is known (a symbolic integer)"""
+
+    def __init__(self, size):
+        cx.NDArr.__init__(self, cx.Store('source-coordinates'))
+        self.nelem = size
+
+    def cx_getattr(self, it, attr):
+        if attr == 'size':
+            return self.nelem
+        if attr in ('shape', 'ndim', 'dtype'):
+            return cx.Opaque('coordinates.' + attr)
+        return NotImplemented
+
+
+TX_BASES = {'TxElectricDipole': ('TxElectricDipole', 'Dipole', 'Source'), 'TxElectricWire': ('TxElectricWire', 'Wire', 'Source'),
+            'TxMagneticDipole': ('TxMagneticDipole', 'Dipole', 'Source'), 'TxElectricPoint': ('TxElectricPoint', 'Point', 'Source'),
+            'TxMagneticPoint': ('TxMagneticPoint', 'Point', 'Source')}
+
+
+def task_get_source_field_from_coordinates():
+    """fields.get_source_field(grid, <tuple | list | ndarray of coordinates>, frequency, strength=, length=, electric=): the nominal moment
+    of the injected source is the caller's.  Exactly one source instance is made from the coordinates -- a wire for more than two electrodes,
+    else an electric dipole, or (electric=False) a magnetic dipole -- and, by the parameters of that class as its CURRENT signature binds them,
+    it gets the given coordinates, the given strength (1 A if none is given) and, in the (x, y, z, azimuth, elevation) format, whose extent
+    is not fixed by the coordinates, the given length (1 m if none): dipole length, resp. loop area of the magnetic dipole.  The field
+    returned is the vector of that instance's points times its strength times -s mu0."""
+    from .cxutil import UNRECOGNISED
+    from .c0910 import bind_call, NoBinding
+    col = ob.Collector(PROP, 'fields.get_source_field/from_coordinates')
+    col.default_replay = lambda d: ob.guarded(__import__('contracts.c0910_concrete', fromlist=['x']).check_sources_from_coordinates, 0)
+    col.function('fields.get_source_field')
+    for c in ('TxElectricDipole', 'TxMagneticDipole', 'TxElectricWire'):
+        col.function('electrodes.' + c)
+    S_KW, L_KW, E_KW, N = z3.Real('strength_given'), z3.Real('length_given'), z3.Bool('electric_given'), z3.Int('number_of_coordinates')
+    P5 = z3.Reals('x y z azimuth elevation')
+    P6 = z3.Reals('x0 x1 y0 y1 z0 z1')
+    forms = {'tuple5': lambda: tuple(P5), 'list5': lambda: list(P5), 'tuple6': lambda: tuple(P6), 'ndarray': lambda: Coords(N)}
+    res = []
+    for form, has_s, has_l, has_e, has_freq in __import__('itertools').product(forms, (False, True), (False, True), (False, True), (True, False)):
+        def mk(ctx, form=form, has_s=has_s, has_l=has_l, has_e=has_e, has_freq=has_freq):
+            log = []
+
+            def vecfn(name):
+                def f(it, args, kw, node):
+                    log.append((name, list(args), dict(kw)))
+                    return vec_field('vfield')
+                return f
+
+            def field(it, args, kw, node):
+                data = kw.get('data')
+                f = cx.Obj('Field', dict(smu0=z3.Real('smu0')), mod='fields')
+                st = cx.Store('sfield', data.store.val) if kw.get('frequency') is not None else data.store
+                f.fields['_field'] = cx.NDArr(st)
+                f.fields['field'] = cx.NDArr(st)
+                f.fields['__kw__'] = dict(kw)
+                log.append(('Field', f))
+                return f
+
+            def txclass(name):
+                def f(it, args, kw, node):
+                    try:
+                        b = bind_call('electrodes.' + name, args, kw)
+                    except NoBinding as e:
+                        raise cx._Raise(cx.ExcVal('TypeError', (str(e),)))
+                    o = cx.Obj(name, dict(coordinates=cx.Opaque('coordinates'), points=cx.Opaque('points'), strength=b.get('strength'),
+                                          __bases__=TX_BASES[name]), mod='electrodes')
+                    log.append(('new', name, b, o))
+                    return o
+                return f
+            ctx.summaries.update({'fields._point_vector': vecfn('point'), 'fields._point_vector_magnetic': vecfn('point_magnetic'),
+                                  'fields._dipole_vector': vecfn('dipole'), 'fields.Field': field})
+            ctx.summaries.update({'electrodes.' + c: txclass(c) for c in TX_BASES})
+            src = forms[form]()
+            kw = {}
+            if has_s:
+                kw['strength'] = S_KW
+            if has_l:
+                kw['length'] = L_KW
+            if has_e:
+                kw['electric'] = E_KW
+            grid = cx.Obj('TensorMesh', {})
+            fr = z3.Real('frequency') if has_freq else None
+            return [grid, src, fr], kw, dict(src=src, grid=grid, log=log, form=form, freq=fr, given=dict(kw))
+        res += cx.run_function('fields.get_source_field', mk, pc0=[N >= 2], summaries={}, opts={})
+    clause(col, 'returns_normally', res, lambda r: r.outcome == 'return')
+
+    def size_is(r, pred):
+        """pred(number of coordinates) as a z3 formula / bool"""
+        n = {'tuple5': 5, 'list5': 5, 'tuple6': 6}.get(r.state['form'], N)
+        return pred(n)
+
+    def made(r):
+        return [x for x in r.state['log'] if x[0] == 'new']
+
+    def same(v, want):
+        if z3.is_expr(want):
+            return z3.is_expr(v) and v.eq(want)
+        return isinstance(v, (int, float)) and not isinstance(v, bool) and v == want
+
+    def one_instance(r):
+        if r.outcome != 'return':
+            return None
+        m = made(r)
+        if not m:
+            return UNRECOGNISED('no Tx* instance is made from the coordinates')
+        if len(m) != 1:
+            return False
+        cls = m[0][1]
+        elec = r.state['given'].get('electric', z3.BoolVal(True))
+        wire = size_is(r, lambda n: z3.BoolVal(n > 6) if isinstance(n, int) else n > 6)
+        return z3.And(z3.Implies(wire, z3.BoolVal(cls == 'TxElectricWire')),
+                      z3.Implies(z3.And(z3.Not(wire), elec), z3.BoolVal(cls == 'TxElectricDipole')),
+                      z3.Implies(z3.And(z3.Not(wire), z3.Not(elec)), z3.BoolVal(cls == 'TxMagneticDipole')))
+    clause(col, 'one_source_instance__wire_for_more_than_two_electrodes_else_electric_dipole_or_magnetic_dipole_if_not_electric', res, one_instance, [N >= 2])
+    col.lia('all_three_classes_are_reached', [], z3.BoolVal({m[1] for r in res for m in made(r)} >= {'TxElectricWire', 'TxElectricDipole', 'TxMagneticDipole'}))
+
+    def coords_strength(r):
+        if r.outcome != 'return':
+            return None
+        m = made(r)
+        if len(m) != 1:
+            return UNRECOGNISED('not exactly one Tx* instance')
+        b, src = m[0][2], r.state['src']
+        c = b.get('coordinates')
+        if isinstance(c, cx.Opaque) or (isinstance(c, cx.NDArr) and c is not src):
+            return UNRECOGNISED('the coordinates handed to the class are computed from the given ones in a way the executor cannot follow')
+        if isinstance(src, Coords):
+            okc = c is src
+        else:
+            okc = isinstance(c, (list, tuple)) and len(c) == len(src) and all(z3.is_expr(p) and p.eq(q) for p, q in zip(c, src))
+        return okc and 'strength' in b and same(b['strength'], r.state['given'].get('strength', 1.0))
+    clause(col, 'the_instance_gets_the_given_coordinates_and_the_given_strength__one_ampere_if_none', res, coords_strength)
+
+    def length(want_of):
+        def post(r):
+            if r.outcome != 'return':
+                return None
+            m = made(r)
+            if len(m) != 1:
+                return UNRECOGNISED('not exactly one Tx* instance')
+            b = m[0][2]
+            five = size_is(r, lambda n: z3.BoolVal(n == 5) if isinstance(n, int) else n == 5)
+            return z3.Implies(five, z3.BoolVal('length' in b and same(b['length'], want_of(r))))
+        return post
+    clause(col, 'in_the_five_element_format_the_instance_gets_the_given_length__one_metre_if_none', res, length(lambda r: r.state['given'].get('length', 1.0)),
+           [N >= 2], sample=True)
+    canary(col, 'canary/the_given_length_is_ignored', res, length(lambda r: 1.0), [N >= 2])
+
+    def field_of_instance(r):
+        if r.outcome != 'return' or not isinstance(r.value, cx.Obj):
+            return None
+        m = made(r)
+        if len(m) != 1:
+            return UNRECOGNISED('not exactly one Tx* instance')
+        calls = [x for x in r.state['log'] if x[0] in ('point', 'point_magnetic', 'dipole')]
+        if len(calls) != 1 or calls[0][0] != 'dipole':
+            return False
+        try:
+            b = bind_call('fields._dipole_vector', calls[0][1], calls[0][2])
+        except NoBinding:
+            return False
+        if not (b['grid'] is r.state['grid'] and b['points'] is m[0][3].fields['points']):
+            return False
+        v = r.value.fields['_field'].store.val
+        if v is None:
+            return UNRECOGNISED('the returned field is not built by element-wise arithmetic the executor can follow')
+        s_ = cx.R(r.state['given'].get('strength', 1.0))
+        want = VEC * s_ * (-z3.Real('smu0')) if r.state['freq'] is not None else VEC * s_
+        return v == want
+    clause(col, 'the_field_is_the_vector_of_that_instances_points_times_the_given_strength_times_minus_s_mu0__no_factor_without_frequency', res, field_of_instance)
+    return col.pack()
+
+
 def task_wire_branch():
     col = ob.Collector(PROP, 'fields._dipole_vector/wire')
     col.default_replay = replay
@@ -145,6 +325,10 @@ def task_concrete():
     col.concrete('source_sums_scaling_touched_cells_conversions_square_loop', r['reproduced'] is False, r,
                  bounded='two stretched grids (local and UTM-like coordinates), random wires with 2..8 electrodes + axis-aligned / on-node cases, 4 strength/frequency modes; 40 conversion / loop cases',
                  cases=r.get('cases', 0))
+    r = ob.guarded(c0910_concrete.check_sources_from_coordinates, seed)
+    col.concrete('source_given_by_coordinates_injects_the_given_strength_times_length_along_its_direction__magnetic_loop_area_vector', r['reproduced'] is False, r,
+                 bounded='stretched 6x5x4 grid; 8 positions / orientations x 4 strength-frequency modes x length given or not x electric given, True, False or not '
+                         'x tuple / list / ndarray; two-electrode and wire coordinates with and without strength', cases=r.get('cases', 0))
     return col.pack()
 
 
@@ -392,13 +576,15 @@ def task_conversions():
 
 def tasks(tier):
     return [('contracts.c0910', 'task_point_source', dict(prop='C10')), ('contracts.c0910', 'task_rotation', dict(prop='C10')),
-            ('contracts.c0910', 'task_dipole_cell', {}), ('contracts.c10', 'task_get_source_field', {}), ('contracts.c10', 'task_wire_branch', {}),
+            ('contracts.c0910', 'task_dipole_cell', {}), ('contracts.c10', 'task_get_source_field', {}), ('contracts.c10', 'task_get_source_field_from_coordinates', {}),
+            ('contracts.c10', 'task_wire_branch', {}),
             ('contracts.c10', 'task_square_loop', {}), ('contracts.c10', 'task_conversions', {}), ('contracts.c10', 'task_concrete', {})]
 
 
 LEVEL = ('Proof over the real source: point-source weights sum to one in every branch; the per-cell contribution of a dipole segment distributes exactly the '
          'clipped length fraction over the edges of that cell with non-negative weights; every segment of a wire is discretised; the source field is the vector '
-         'times strength times -s mu0; rotation is the documented unit direction.')
+         'times strength times -s mu0, also when the source is given by its coordinates (one instance of the documented class with the given coordinates, strength and length); '
+         'rotation is the documented unit direction.')
 ASSUMPTIONS = ['the sum over cells of the clipped length fractions of a segment equals one (geometric partition; the code enforces it only by renormalisation) -- not proved',
                'dipole <-> point conversions and the square loop are covered by the bounded concrete check only (trigonometric round trip)',
                'np.asarray(data, dtype) keeps the storage when the dtype matches and converts to a copy with equal values otherwise']
